@@ -169,7 +169,7 @@ Lemma range_seq R U lo hi d :
   tstep (key_in lo hi) d (compact_range R 0 lo hi d) /\
   (wfd (d_store d) -> wfd (d_store (compact_range R 0 lo hi d))).
 Proof.
-  intros Hd Hok Ha G. unfold compact_range in *. change (mkCfg R true 0 0) with (cfg R) in *.
+  intros Hd Hok Ha G. unfold compact_range, compact_range_e in *. change (mkCfg R true 0 0 []) with (cfg R) in *.
   set (snap := sort_by rec_ltb (filter (in_range lo hi) (d_store d))) in *.
   set (d0 := mkD (d_store d) (d_ghost d) [] (d_oc d) (d_dead d) (d_trace d)) in *.
   assert (Hsnap_in : forall y, In y snap -> In y (d_store d) /\ in_range lo hi y = true).
@@ -192,7 +192,7 @@ Qed.
 
 Lemma compact_range_good R lo hi d : good (compact_range R 0 lo hi d) -> good d.
 Proof.
-  unfold compact_range. change (mkCfg R true 0 0) with (cfg R). intros G.
+  unfold compact_range, compact_range_e. change (mkCfg R true 0 0 []) with (cfg R). intros G.
   apply wloop_good in G. cbn [init_w w_d] in G. intros s Hs. apply G. exact Hs.
 Qed.
 
